@@ -38,7 +38,9 @@
 (***************************************************************************)
 EXTENDS Naturals, Sequences, FiniteSets, TLC, Json, SequencesExt
 
-CONSTANT Quick    \* TRUE: the every-change subset of the toggle space
+CONSTANTS Quick,    \* TRUE: the every-change subset of the toggle space
+          AdvNames  \* adversarial leaf names (C28): names whose schema path hashes to field number 0, into
+                    \* the reserved ranges, or to the number of a sibling; added as string leaves next to top/a
 
 Behaviours == {"Uncompressed", "UncompressedExcludeDerivedState", "PreferIntendedConfig", "PreferOperationalState", "ExcludeDerivedState"}
 Compressing(b) == b \in {"PreferIntendedConfig", "PreferOperationalState", "ExcludeDerivedState"}
@@ -125,9 +127,12 @@ OCExtras ==
          Cont(<<"top", "sls", "sl", "state">>, FALSE, "plain"),
          Leaf(<<"top", "sls", "sl", "state", "id">>, FALSE, "uint32", "plain"), Leaf(<<"top", "sls", "sl", "state", "val">>, FALSE, "string", "plain") }
 
+AdvPlain == {Leaf(<<"top", x>>, TRUE, "string", "plain") : x \in AdvNames}
+AdvOC == {Leaf(<<"top", "config", x>>, TRUE, "string", "plain") : x \in AdvNames} \cup {Leaf(<<"top", "state", x>>, FALSE, "string", "plain") : x \in AdvNames}
+
 Schema(tog) ==
-  IF tog.oc THEN OCCore(tog) \cup (IF tog.extras THEN OCExtras ELSE {})
-  ELSE PlainCore(tog) \cup (IF tog.extras THEN PlainExtras ELSE {})
+  IF tog.oc THEN OCCore(tog) \cup (IF tog.extras THEN OCExtras ELSE {}) \cup AdvOC
+  ELSE PlainCore(tog) \cup (IF tog.extras THEN PlainExtras ELSE {}) \cup AdvPlain
 
 ----------------------------------------------------------------------------
 (* Navigation *)
